@@ -2182,6 +2182,7 @@ pub mod cs {
           let v = self.next_val;
           self.next_val += 1;
           self.rig.insert(*k, v, *cost, *asy);
+          self.trace_push(format!("{}({}, value {}, cost {})", op.name(), k, v, cost));
           if self.m.ents.contains_key(k) {
             self.out.c("writes/overwrite", 1);
           }
@@ -2194,6 +2195,7 @@ pub mod cs {
           let v = self.next_val;
           self.next_val += 1;
           self.rig.insert_ttl(*k, v, *cost, *ttl, *asy);
+          self.trace_push(format!("{}({}, value {}, cost {}, ttl {} ns)", op.name(), k, v, cost, ttl));
           if self.m.ents.contains_key(k) {
             self.out.c("writes/overwrite", 1);
           }
@@ -2212,6 +2214,7 @@ pub mod cs {
         Op::Advance { ns } => {
           let before = self.now;
           self.now = advance(*ns);
+          self.trace_push(format!("clock +{} ns", ns));
           // evidence: which deadlines were crossed / hit exactly
           let mut inst: Vec<u64> = Vec::new();
           for e in self.m.ents.values() {
@@ -2242,6 +2245,7 @@ pub mod cs {
         }
         Op::Maintain { asy } => {
           self.rig.maintain(*asy);
+          self.trace_push(op.name());
           let ks: Vec<u64> = self.m.ents.keys().copied().collect();
           for k in ks {
             let live = self.m.def_live(&self.m.ents[&k], t);
@@ -2275,6 +2279,11 @@ pub mod cs {
         }
         Op::EntryGet { k, asy } => {
           let r = self.rig.entry_get(*k, *asy);
+          // entry() holds the shard write lock and may purge an entry that is past its expiry
+          // (like a maintenance pass): from here on the entry is no longer certainly present.
+          if self.m.ents.get(k).map_or(false, |e| !self.m.def_live(e, t)) {
+            self.m.ents.get_mut(k).unwrap().sure = false;
+          }
           self.trace_push(format!("{}({}) -> {:?}", op.name(), k, r.map(|v| format!("Occupied({})", v)).unwrap_or("Vacant".into())));
           self.check_read(&op.name(), *k, r, Rc::Open, at);
         }
@@ -2282,6 +2291,9 @@ pub mod cs {
           let v = self.next_val;
           self.next_val += 1;
           let r = self.rig.entry_or_insert(*k, v, 1, *asy);
+          if self.m.ents.get(k).map_or(false, |e| !self.m.def_live(e, t)) {
+            self.m.ents.get_mut(k).unwrap().sure = false;
+          }
           self.trace_push(format!("{}({}).or_insert({}) -> {}", op.name(), k, v, r));
           if r == v {
             // vacant: the default went in
@@ -2485,6 +2497,12 @@ pub mod cs {
 
   pub fn case17_json(c: &Case17) -> Value {
     serde_json::to_value(c).unwrap()
+  }
+  pub fn case17_brief(c: &Case17) -> String {
+    match c {
+      Case17::Iter(i) => format!("iter scenario: api {:?}, {} entries, shards {}, advances {:?}", i.api, i.entries.len(), i.cfg.shards, i.advances),
+      Case17::Restore(r) => format!("restore scenario: policy {}, capacity {:?}, shards {}", r.cfg.policy, r.cfg.capacity, r.cfg.shards),
+    }
   }
   pub fn case17_small(c: &Case17) -> bool {
     match c {
@@ -3179,6 +3197,7 @@ pub mod cs {
         control.maintain(false);
       }
     }
+    let debug = std::env::var_os("VH_DEBUG17").is_some();
     let mut cur_cost: BTreeMap<u64, u64> = g.iter().map(|(k, e)| (*k, e.cost)).collect();
     let mut overwritten: BTreeSet<u64> = BTreeSet::new();
     let mut keys2: BTreeSet<u64> = g.keys().copied().collect();
@@ -3192,6 +3211,13 @@ pub mod cs {
       if j % 8 == 7 {
         rest.maintain(false);
         control.maintain(false);
+      }
+      if debug {
+        let view = |r: &Rig| -> String {
+          let res: Vec<(u64, u64)> = keys2.iter().filter(|k| r.peek(**k, false).is_some()).map(|k| (*k % 1000, cur_cost[k])).collect();
+          format!("metrics.current_cost {} resident(key%1000,cost) {:?}", r.s.metrics().current_cost, res)
+        };
+        out.trace.push(format!("post insert #{} key%1000 {} cost {}{}: restored {} | control {}", j, k % 1000, cost, if j % 8 == 7 { " +maintenance" } else { "" }, view(&rest), view(&control)));
       }
     }
     let fx1 = maintain_to_fixpoint(&rest, &keys2);
